@@ -32,6 +32,7 @@ type propCfg struct {
 	quickRace, thoroughRace int // runs under the race detector (0 = no race binary)
 	level                   string
 	needsCLI                bool
+	acceptExitDeath         bool // a worker killed by goalign's own ExitWithMessage (from a goroutine the harness cannot recover in) is an accepted outcome
 	vlimitKB                int64 // address-space limit for non-race workers (0 = none)
 	stallS                  int   // seconds without journal progress before a worker is declared stalled
 	engine                  string
@@ -45,6 +46,9 @@ var props = map[string]propCfg{
 	"C16": {quick: 3000, thorough: 300000, quickRace: 800, thoroughRace: 60000, level: "exploration", stallS: 120, engine: "E1 seeded goroutine scheduler + race detector",
 		components: "real: phaser.Phase, SeqBag.SequencesChan producer goroutine, worker pool, closer goroutine, pairwise aligner, translation, SeqBag.LongestORF; environment: the harness is the consumer of the result channel (one more scheduled goroutine), yield points spliced by seamgen; stubs: none",
 		assumptions: e1Assumptions},
+	"C03": {quick: 2000000, thorough: 150000000, level: "fault_enumeration", stallS: 60, vlimitKB: 8 << 20, acceptExitDeath: true, engine: "E2 simulated stream with fault injection",
+		components: "real: the 6 lexers and 7 parsers (fasta, phylip strict/relaxed incl. ParseMultiple, nexus, clustal, stockholm, partition), utils.ParseAlignmentAuto, utils.ParseMultiAlignmentsAuto and its parser goroutine, bufio; environment: simFile (io.Reader + io.Closer: fragmentation, empty reads, EOF style, read errors, post-EOF read budget), os.Exit seam; stubs: none",
+		assumptions: []string{"a parser that asks the stream for more data 10000 times after the end was reported is looping (the budget is far above what bufio and the lexers need: they stop at the first EOF token)", "an out-of-memory death of a worker under an 8 GiB address-space limit counts as a crash caused by the input", "seeded search samples the fault space; only the stated sweeps (every prefix / every structural byte of the corpus files) are exhaustive"}},
 	"C08": {quick: 20000, thorough: 2000000, quickRace: 5000, thoroughRace: 400000, level: "exploration", stallS: 120, engine: "E1 seeded goroutine scheduler + race detector",
 		components: "real: dna.DistMatrix, its producer/worker goroutines, sync.Mutex, sync.WaitGroup, channels, all 7 estimators; environment: model wrapper behind the public DistModel interface (delegates; injects errors), yield points spliced by seamgen; stubs: none",
 		assumptions: []string{"testing/synctest reports quiescence correctly (go1.26.8)", "a goroutine runs alone between two yield points except for the few instructions a goroutine woken through goalign's own channels executes before it parks", "the race detector's shadow memory (4 cells per 8 bytes) keeps the conflicting access: runs are kept to <= 66 pairs in race mode", "seeded search samples schedules, it does not enumerate them"}},
@@ -90,6 +94,7 @@ type BatchResult struct {
 	Complete    bool             `json:"complete"`
 	Diverged    string           `json:"diverged"`
 	Rule        string           `json:"rule"`
+	EnumSize    int              `json:"enum_size"`
 	Reproduced  bool             `json:"reproduced"`
 	Class       string           `json:"class"`
 	Detail      string           `json:"detail"`
@@ -106,6 +111,7 @@ type Replay struct {
 	Detail   string          `json:"detail"`
 	Shrunk   bool            `json:"shrunk"`
 	Note     string          `json:"note,omitempty"`
+	Index    int             `json:"index"`
 	Case     json.RawMessage `json:"case"`
 }
 
@@ -462,6 +468,9 @@ loop:
 		}
 	} else {
 		wr.died = true
+		if pb, err := os.ReadFile(job.Out + ".part"); err == nil {
+			json.Unmarshal(pb, &wr.res) // what the worker had gathered before it died
+		}
 	}
 	// journal: last B without E
 	wr.lastB = -2
@@ -616,7 +625,7 @@ func (s *supervisor) batch(race bool, runs int) BatchResult {
 				cnt -= doneRuns
 				start = wr.lastB + nw
 				restarts++
-				if restarts > 40 {
+				if restarts > 300 {
 					logf("vcheck: worker %d restarted %d times, giving up on its remaining %d runs", w, restarts, cnt)
 					break
 				}
@@ -625,18 +634,48 @@ func (s *supervisor) batch(race bool, runs int) BatchResult {
 	}
 	wg.Wait()
 	sigs := map[uint64]bool{}
+	add := func(r BatchResult) {
+		total.Runs += r.Runs
+		total.Nontrivial += r.Nontrivial
+		for _, sg := range r.Sigs {
+			sigs[sg] = true
+		}
+		for k, v := range r.Stats {
+			total.Stats[k] += v
+		}
+		for k, v := range r.ClassCount {
+			total.ClassCount[k] += v
+		}
+		if len(total.Samples) < 4 {
+			total.Samples = append(total.Samples, r.Samples...)
+		}
+		if r.Rule != "" {
+			total.Rule = r.Rule
+		}
+		if r.EnumSize > total.EnumSize {
+			total.EnumSize = r.EnumSize
+		}
+		total.Violations = append(total.Violations, r.Violations...)
+	}
 	for w := range results {
 		for _, wr := range results[w] {
 			r := wr.res
 			if wr.died || wr.stall {
-				// a dead worker wrote no result file: count what the journal says
-				total.Runs += wr.ended + 1
+				// a dead worker leaves a partial result (at most a second old) and the journal
+				add(r)
+				if wr.ended+1 > r.Runs {
+					total.Runs += wr.ended + 1 - r.Runs
+				}
 				cl := classifyDeath(wr.stderr, wr.stall)
+				if s.cfg.acceptExitDeath && strings.HasPrefix(cl, "procdeath:exit:") {
+					total.Stats["outcome_exit_in_parser_goroutine"]++
+					continue
+				}
 				total.ClassCount[cl]++
 				if total.ClassCount[cl] <= 3 {
 					path := filepath.Join(work, "cand", fmt.Sprintf("death-%v-%d.json", race, wr.lastB))
 					os.MkdirAll(filepath.Dir(path), 0755)
-					rp := Replay{Property: s.id, RunSeed: wr.lastRS, Tier: s.tier, Race: race, Class: cl, Detail: tail(wr.stderr, 6000), Note: "worker process died; case is regenerated from the run seed"}
+					rp := Replay{Property: s.id, RunSeed: wr.lastRS, Tier: s.tier, Race: race, Index: wr.lastB, Class: cl, Detail: tail(wr.stderr, 6000), Note: "worker process died; case is regenerated from the run seed"}
 					jb, _ := json.MarshalIndent(rp, "", " ")
 					os.WriteFile(path, jb, 0644)
 					total.Violations = append(total.Violations, FoundViolation{Index: wr.lastB, RunSeed: wr.lastRS, Class: cl, Detail: tail(wr.stderr, 3000), Replay: path, Race: race})
@@ -644,24 +683,7 @@ func (s *supervisor) batch(race bool, runs int) BatchResult {
 				total.Stats["worker_process_deaths"]++
 				continue
 			}
-			total.Runs += r.Runs
-			total.Nontrivial += r.Nontrivial
-			for _, sg := range r.Sigs {
-				sigs[sg] = true
-			}
-			for k, v := range r.Stats {
-				total.Stats[k] += v
-			}
-			for k, v := range r.ClassCount {
-				total.ClassCount[k] += v
-			}
-			if len(total.Samples) < 4 {
-				total.Samples = append(total.Samples, r.Samples...)
-			}
-			if r.Rule != "" {
-				total.Rule = r.Rule
-			}
-			total.Violations = append(total.Violations, r.Violations...)
+			add(r)
 		}
 	}
 	for sg := range sigs {
@@ -1034,6 +1056,11 @@ func (s *supervisor) writeEvidence(total BatchResult, nviol int, knownHit []stri
 		"seams":               s.b.seams["counts"],
 		"workers":             s.nw,
 		"simulated_time":      "goalign has no clock to advance; the unit of simulated progress is the scheduler step / delivered stream fragment / operation, see counters",
+	}
+	if total.EnumSize > 0 {
+		done := total.Stats["exhaustive_sweep_cases"]
+		cov["exhaustive_subspace"] = map[string]interface{}{"size": total.EnumSize, "executed": done, "complete": done >= int64(total.EnumSize),
+			"note": "the enumerated sub-space (see rule) is swept completely; the rest of the run is seeded search, so coverage.exhaustive is not set"}
 	}
 	if len(total.Samples) == 0 {
 		cov["samples"] = []interface{}{"(no sample recorded)"}
